@@ -21,9 +21,6 @@ open HierArc
 inductive Err where
   /-- `ValueError("key %s not in parameters …")` of `kwargs2param_array` -/
   | missingKey (k : String)
-  /-- `ValueError("One of the requested xi is out of bounds …")` of `RegularGridInterpolator`
-      (two or more axes; one axis extrapolates linearly instead) -/
-  | outOfBounds
   /-- name list / axes / grid of inconsistent lengths (misconfiguration, IndexError / ValueError) -/
   | shape
   deriving Repr, DecidableEq
@@ -104,7 +101,8 @@ def inRange (ax : List α) (x : α) : Bool :=
 def jScaling (axes : List (List α)) (g : Grid α) (xs : List α) : Except Err α :=
   if xs.isEmpty then .ok 1.0
   else if axes.length ≠ xs.length then .error .shape
-  else if 2 ≤ axes.length && !((axes.zip xs).all (fun p => inRange p.1 p.2)) then .error .outOfBounds
+  -- (beyond the axes both interpolators extrapolate linearly from the outermost cell: `interp1d(fill_value="extrapolate")`,
+  --  `RegularGridInterpolator(bounds_error=False, fill_value=None)` — `locate` returns the first / last cell there)
   else .ok (interp (axes.zip xs) g)
 
 /-- python `min(array)` : keeps the first minimal element -/
